@@ -217,16 +217,25 @@ def run(ctx: Context) -> None:
 
     # ------------------------------------------------------------------ R10.3
     with ctx.section('R10.3'):
+        from .common import expand_locals as _x103
         for elem in ('node', 'edge', 'face'):
-            coord = ctx.func(f"{TOPO}._{elem}_coordinates")
-            ok = all(norm_text(r.value) == f"_split_coord(self.mesh_attributes['{elem}_coordinates'])" for r in coord.returns()) and coord.returns()
-            ctx.check('R10.3', bool(ok), f"{elem} coordinate names come from the {elem}_coordinates attribute", coord, coord.node)
+            # the pair of names may be kept in a private property or split where it is used: either way it is _split_coord(<the attribute>)
+            coord = p.functions.get(f"{TOPO}._{elem}_coordinates")
+            pair_text = f"_split_coord(self.mesh_attributes['{elem}_coordinates'])"
+            if coord is not None:
+                ok = all(norm_text(r.value) == pair_text for r in coord.returns()) and coord.returns()
+                ctx.check('R10.3', bool(ok), f"{elem} coordinate names come from the {elem}_coordinates attribute", coord, coord.node)
             for i, axis in enumerate('xy'):
                 fi = ctx.func(f"{TOPO}.{elem}_{axis}")
-                subs = [n for n in ast.walk(fi.node) if isinstance(n, ast.Subscript) and norm_text(n.slice) == f"self._{elem}_coordinates[{i}]"]
-                ok = len(subs) == 1 and norm_text(subs[0].value) in ('self.dataset', 'self.dataset.variables')
-                ctx.check('R10.3', ok, f"{elem}_{axis} is element {i} of that pair, looked up dataset-wide", fi, subs[0] if subs else fi.node,
-                          construct=f"{elem}_{axis}: {norm_text(subs[0]) if subs else 'lookup not found'}")
+                fl = ctx.flow(fi)
+                wanted = {f"{pair_text}[{i}]"} | ({f"self._{elem}_coordinates[{i}]"} if coord is not None else set())
+                subs = [n for n in ast.walk(fi.node) if isinstance(n, ast.Subscript) and isinstance(n.ctx, ast.Load) and norm_text(n.value) in ('self.dataset', 'self.dataset.variables')]
+                good = [n for n in subs if norm_text(_x103(fl, n.slice)) in wanted]
+                narrow = [n for n in ast.walk(fi.node) if isinstance(n, ast.Attribute) and n.attr in ('data_vars', 'coords') and norm_text(n.value) == 'self.dataset']
+                ok = len(subs) >= 1 and len(good) == len(subs) and not narrow
+                ctx.check('R10.3', ok, f"{elem}_{axis} is element {i} of that pair, looked up dataset-wide (a coordinate named by a CF `coordinates` attribute is held as an "
+                          "xarray coordinate, not as a data variable)", fi, (narrow or subs or [fi.node])[0],
+                          construct=f"{elem}_{axis}: lookups {[norm_text(n)[:60] for n in subs] or 'not found'}; narrowed to {[norm_text(n) for n in narrow] or 'nothing'}")
         sc = ctx.func(f"{UGRID}._split_coord")
         from ..pattern import Matcher as _M
         msc = _M(ctx, sc)
